@@ -175,15 +175,91 @@ Definition char_text (c : pcfg) (r : N) : list byte :=
   if p_escape c then [35; 92]%N ++ char_name r else utf8 r.
 
 (* ------------------------------------------------------------------------------------------ *)
+(* the reader: token resolution (resolveToken), also consulted by the printer of symbols         *)
+(* ------------------------------------------------------------------------------------------ *)
+Definition is_digit (b : byte) : bool := (48 <=? b)%N && (b <=? 57)%N.
+Definition strip_sign (bs : list byte) : list byte := match bs with 43%N :: r | 45%N :: r => r | _ => bs end.
+Fixpoint span_digits (bs : list byte) : list byte * list byte :=
+  match bs with
+  | b :: r => if is_digit b then let '(d, rest) := span_digits r in (b :: d, rest) else ([], bs)
+  | [] => ([], [])
+  end.
+Definition nonempty {A} (l : list A) : bool := match l with [] => false | _ => true end.
+(* ^[-+]?[0-9]+\.?$   (with the read base 10) *)
+Definition int_rx (bs : list byte) : bool :=
+  let '(d, rest) := span_digits (strip_sign bs) in
+  nonempty d && match rest with [] | [46%N] => true | _ => false end.
+(* ^[-+]?[0-9]+\.?[0-9]*$ (marker None)  and  ^[-+]?[0-9]+\.?[0-9]*m[-+]?[0-9]+?$ (marker Some m) *)
+Definition float_rx (marker : option byte) (bs : list byte) : bool :=
+  let '(d, rest) := span_digits (strip_sign bs) in
+  nonempty d &&
+  let rest := match rest with 46%N :: r => snd (span_digits r) | _ => rest end in
+  match marker, rest with
+  | None, [] => true
+  | Some m, b :: e => (b =? m)%N && (let '(d2, r2) := span_digits (strip_sign e) in nonempty d2 && negb (nonempty r2))
+  | _, _ => false
+  end.
+(* ^[-+]?[0-9]+/[-+]?[0-9]+$ *)
+Definition ratio_rx (bs : list byte) : bool :=
+  let '(d, rest) := span_digits (strip_sign bs) in
+  nonempty d && match rest with 47%N :: e => let '(d2, r2) := span_digits (strip_sign e) in nonempty d2 && negb (nonempty r2) | _ => false end.
+
+Definition digits_val (base : N) (bs : list byte) : Z :=
+  fold_left (fun acc b => match digit_val b with Some d => (acc * Z.of_N base + Z.of_N d)%Z | None => acc end) bs 0%Z.
+(* strconv.ParseInt / big.Int.SetString on a token the regular expression (or valid_int) accepted *)
+Definition int_val (base : N) (bs : list byte) : Z :=
+  match bs with
+  | 45%N :: r => (- digits_val base r)%Z
+  | 43%N :: r => digits_val base r
+  | _ => digits_val base bs
+  end.
+Definition int_obj (z : Z) : obj := OInt (negb (in64 z)) z.
+Fixpoint trim_dots_rev (bs : list byte) : list byte := match bs with 46%N :: r => trim_dots_rev r | _ => bs end.
+Definition trim_dots (bs : list byte) : list byte := rev (trim_dots_rev (rev bs)).   (* bytes.TrimRight(buf, ".") *)
+Fixpoint split_slash (bs : list byte) : list byte * list byte :=
+  match bs with
+  | [] => ([], [])
+  | 47%N :: r => ([], r)
+  | b :: r => let '(x, y) := split_slash r in (b :: x, y)
+  end.
+
+(* resolveToken with *read-base* 10 and *read-default-float-format* double-float.  Not modelled: a
+   token beginning with @ that parses as a time (it is read as a symbol here), and float tokens
+   strconv.ParseFloat rejects as out of range (they become symbols in the Go code). *)
+Definition starts_with_at (buf : list byte) : bool := match buf with 64%N :: _ => true | _ => false end.
+Definition resolve_buf (tok buf : list byte) : obj :=
+  if int_rx buf then int_obj (int_val 10 (trim_dots buf))
+  else if float_rx None buf || float_rx (Some 101%N) buf then OFlt FDouble buf
+  else if float_rx (Some 100%N) buf then OFlt FDouble buf
+  else if float_rx (Some 115%N) buf then OFlt FSingle buf
+  else if float_rx (Some 102%N) buf then OFlt FSingle buf
+  else if float_rx (Some 108%N) buf then OFlt FLong buf
+  else if ratio_rx buf then
+    let '(ns, ds) := split_slash buf in
+    let n := int_val 10 ns in let d := int_val 10 ds in
+    if (0 <? d)%Z then let g := Z.gcd n d in ORat (n / g)%Z (d / g)%Z else OSym tok
+  else OSym tok.
+Definition resolve_token (tok : list byte) : obj :=
+  let buf := map lower tok in
+  if starts_with_at buf then OSym tok else resolve_buf tok buf.
+
+(* ------------------------------------------------------------------------------------------ *)
 (* symbols                                                                                       *)
 (* ------------------------------------------------------------------------------------------ *)
 Definition need_pipe (b : byte) : bool := (nth (N.to_nat b) needpipe_table 46 =? 120)%N.
+(* Symbol.needPipes (repo_fixes C03-3): a byte needPipeMap flags, or a name beginning with a sign or a digit that
+   the reader (read base ten, double-float default) would not resolve to a symbol *)
+Definition numeric_first (b : byte) : bool := is_digit b || (b =? 43)%N || (b =? 45)%N.
+Definition reads_as_symbol (name : list byte) : bool := match resolve_token name with OSym _ => true | _ => false end.
+Definition need_pipes (name : list byte) : bool :=
+  existsb need_pipe name ||
+  match name with b :: _ => numeric_first b && negb (reads_as_symbol name) | [] => false end.
 (* Symbol.Readably *)
 Definition symbol_text (c : pcfg) (name : list byte) : list byte :=
   match name with
   | [] => [124; 124]%N
   | 58%N :: _ => case_name (p_case c) name
-  | _ => if existsb need_pipe name then [124%N] ++ case_name (p_case c) name ++ [124%N] else case_name (p_case c) name
+  | _ => if need_pipes name then [124%N] ++ case_name (p_case c) name ++ [124%N] else case_name (p_case c) name
   end.
 
 (* ------------------------------------------------------------------------------------------ *)
@@ -311,74 +387,8 @@ Definition pretty (c : pcfg) (x : obj) : list byte :=
 Definition print (c : pcfg) (x : obj) : list byte := if p_pretty c then pretty c x else flat c x.
 
 (* ------------------------------------------------------------------------------------------ *)
-(* the reader: token resolution on top of C02's byte machine                                     *)
+(* the reader: characters, arrays, objects denoted by C02's trees                               *)
 (* ------------------------------------------------------------------------------------------ *)
-Definition is_digit (b : byte) : bool := (48 <=? b)%N && (b <=? 57)%N.
-Definition strip_sign (bs : list byte) : list byte := match bs with 43%N :: r | 45%N :: r => r | _ => bs end.
-Fixpoint span_digits (bs : list byte) : list byte * list byte :=
-  match bs with
-  | b :: r => if is_digit b then let '(d, rest) := span_digits r in (b :: d, rest) else ([], bs)
-  | [] => ([], [])
-  end.
-Definition nonempty {A} (l : list A) : bool := match l with [] => false | _ => true end.
-(* ^[-+]?[0-9]+\.?$   (with the read base 10) *)
-Definition int_rx (bs : list byte) : bool :=
-  let '(d, rest) := span_digits (strip_sign bs) in
-  nonempty d && match rest with [] | [46%N] => true | _ => false end.
-(* ^[-+]?[0-9]+\.?[0-9]*$ (marker None)  and  ^[-+]?[0-9]+\.?[0-9]*m[-+]?[0-9]+?$ (marker Some m) *)
-Definition float_rx (marker : option byte) (bs : list byte) : bool :=
-  let '(d, rest) := span_digits (strip_sign bs) in
-  nonempty d &&
-  let rest := match rest with 46%N :: r => snd (span_digits r) | _ => rest end in
-  match marker, rest with
-  | None, [] => true
-  | Some m, b :: e => (b =? m)%N && (let '(d2, r2) := span_digits (strip_sign e) in nonempty d2 && negb (nonempty r2))
-  | _, _ => false
-  end.
-(* ^[-+]?[0-9]+/[-+]?[0-9]+$ *)
-Definition ratio_rx (bs : list byte) : bool :=
-  let '(d, rest) := span_digits (strip_sign bs) in
-  nonempty d && match rest with 47%N :: e => let '(d2, r2) := span_digits (strip_sign e) in nonempty d2 && negb (nonempty r2) | _ => false end.
-
-Definition digits_val (base : N) (bs : list byte) : Z :=
-  fold_left (fun acc b => match digit_val b with Some d => (acc * Z.of_N base + Z.of_N d)%Z | None => acc end) bs 0%Z.
-(* strconv.ParseInt / big.Int.SetString on a token the regular expression (or valid_int) accepted *)
-Definition int_val (base : N) (bs : list byte) : Z :=
-  match bs with
-  | 45%N :: r => (- digits_val base r)%Z
-  | 43%N :: r => digits_val base r
-  | _ => digits_val base bs
-  end.
-Definition int_obj (z : Z) : obj := OInt (negb (in64 z)) z.
-Fixpoint trim_dots_rev (bs : list byte) : list byte := match bs with 46%N :: r => trim_dots_rev r | _ => bs end.
-Definition trim_dots (bs : list byte) : list byte := rev (trim_dots_rev (rev bs)).   (* bytes.TrimRight(buf, ".") *)
-Fixpoint split_slash (bs : list byte) : list byte * list byte :=
-  match bs with
-  | [] => ([], [])
-  | 47%N :: r => ([], r)
-  | b :: r => let '(x, y) := split_slash r in (b :: x, y)
-  end.
-
-(* resolveToken with *read-base* 10 and *read-default-float-format* double-float.  Not modelled: a
-   token beginning with @ that parses as a time (it is read as a symbol here), and float tokens
-   strconv.ParseFloat rejects as out of range (they become symbols in the Go code). *)
-Definition starts_with_at (buf : list byte) : bool := match buf with 64%N :: _ => true | _ => false end.
-Definition resolve_buf (tok buf : list byte) : obj :=
-  if int_rx buf then int_obj (int_val 10 (trim_dots buf))
-  else if float_rx None buf || float_rx (Some 101%N) buf then OFlt FDouble buf
-  else if float_rx (Some 100%N) buf then OFlt FDouble buf
-  else if float_rx (Some 115%N) buf then OFlt FSingle buf
-  else if float_rx (Some 102%N) buf then OFlt FSingle buf
-  else if float_rx (Some 108%N) buf then OFlt FLong buf
-  else if ratio_rx buf then
-    let '(ns, ds) := split_slash buf in
-    let n := int_val 10 ns in let d := int_val 10 ds in
-    if (0 <? d)%Z then let g := Z.gcd n d in ORat (n / g)%Z (d / g)%Z else OSym tok
-  else OSym tok.
-Definition resolve_token (tok : list byte) : obj :=
-  let buf := map lower tok in
-  if starts_with_at buf then OSym tok else resolve_buf tok buf.
-
 (* runeMap: a Go map from the lower-cased name to the character *)
 Fixpoint beqb (a b : list byte) : bool :=
   match a, b with [], [] => true | x :: a', y :: b' => (x =? y)%N && beqb a' b' | _, _ => false end.
